@@ -22,7 +22,7 @@ def discover():
         src = open(f).read()
         m = re.search(r"^PROPS\s*=\s*\(([^)]*)\)", src, re.M)
         if m:
-            for pid in re.findall(r'"(C\d+)"', m.group(1)):
+            for pid in re.findall(r'"([CX]\d+)"', m.group(1)):
                 table[pid] = os.path.basename(f)[:-3]
     return table
 
